@@ -9,6 +9,14 @@ MSG_INV = ["InvIff", "InvValue", "InvNestedDup", "Emit"]
 MAP_INV = ["InvIff", "InvValue", "InvDup", "Emit"]
 
 JOBS = {
+    "C12": [
+        {"module": "MC_Dup", "spec": "Spec", "invariants": ["InvDecode", "InvOnlyFault", "InvEncode", "InvMustFail", "Emit"],
+         "quick": {"constants": {"MaxN": 3, "AllEnc": "FALSE"}, "timeout": 300},
+         "thorough": {"constants": {"MaxN": 4, "AllEnc": "TRUE"}, "timeout": 3000},
+         "rule": "decode: (map kind, duplicated label, map size, position pair, encoding pair of the two keys, nesting position) tuples, "
+                 "each with the control input that drops the second occurrence; encode: in-memory headers/keys/claims sets whose extras "
+                 "clash, in every holder; non-trivial = the input really carries a duplicate"},
+    ],
     "C10": [
         {"module": "MC_KeyDecode", "spec": "Spec", "invariants": MAP_INV + ["InvOpsOrder"],
          "quick": {"constants": {"MaxLen": 2, "MaxKeys": 3}, "timeout": 300},
